@@ -100,6 +100,10 @@ def _triple(part, variant):
         al.append(dict(label="insertion", performance_id="n900"))
         notes.append(dict(id="n901", midi_pitch=77, note_on=0.2, note_off=0.24, velocity=20, track=0, channel=0))
         al.append(dict(label="ornament", score_id=str(na[order[0]]["id"]), performance_id="n901", type="trill"))
+        # a trill: several ornament notes on ONE score note, and one more on another note
+        for j, (pid_, pitch_, on_) in enumerate((("n902", 79, 0.26), ("n903", 77, 0.32), ("n904", 79, 0.38))):
+            notes.append(dict(id=pid_, midi_pitch=pitch_, note_on=on_, note_off=on_ + 0.05, velocity=21 + j, track=0, channel=0))
+            al.append(dict(label="ornament", score_id=str(na[order[0 if j < 2 else min(2, len(order) - 1)]]["id"]), performance_id=pid_, type="trill"))
     controls = [] if variant == "plain" else [dict(number=64, time=0.3, value=127, track=0, channel=0), dict(number=64, time=1.1, value=0, track=0, channel=0), dict(number=67, time=0.5, value=90, track=0, channel=0),
                                                       # two pedal values on one tick (a fast pedal movement on a coarse clock), and a soft and a sustain event on one tick
                                                       dict(number=64, time=1.5, value=70, track=0, channel=0), dict(number=64, time=1.5, value=90, track=0, channel=0),
@@ -111,7 +115,8 @@ def bounded(b):
     import partitura as pt
     import partitura.score as sc
     scores = _scores(b.tier)
-    settings = [(480, 500000), (96, 600000)] if b.tier == "quick" else [(480, 500000), (96, 600000), (960, 250000), (48, 1000000)]
+    # (454545 microseconds per quarter = 132 bpm: a rate that is not a whole number of milliseconds)
+    settings = [(480, 500000), (96, 600000), (480, 454545)] if b.tier == "quick" else [(480, 500000), (96, 600000), (480, 454545), (960, 250000), (48, 1000000), (384, 666667)]
     b.rules.append("generated single-part scores (%d: two voices/staves, pickup, chord, tie, time-signature change, key signature) x alignments {all matched, "
                    "partial with deletions, an insertion and an ornament} x pedal streams {none, sustain+soft} x ppq/mpq %r; contract on "
                    "load_match(save_match(...), create_score=True); plus hand-written files with duplicate ids and the 3 fixture files; non-trivial = all" % (len(scores), settings))
